@@ -250,10 +250,10 @@ M("c02-sub-right-assoc", "C02", "src/ckl/parser.py",
   '''            expr = func_call("sub", expr, parse_mul_expr(lexer), pos)''',
   '''            expr = func_call("sub", expr, parse_add_expr(lexer), pos)''',
   "binary minus groups to the right")
-M("c02-chain-first-operand", "C02", "src/ckl/parser.py",
-  '''        result.addAndClause(cmp)
-        lhs = rhs''', '''        result.addAndClause(cmp)''',
-  "every chain element is compared with the first operand")
+M('c02-chain-first-operand', 'C02', 'src/ckl/nodes.py',
+  '            if not value.value:\n                return FALSE\n            left = right\n        return TRUE\n',
+  '            if not value.value:\n                return FALSE\n        return TRUE\n',
+  'every chain element is compared with the first operand')
 M('c02-and-eager', 'C02', 'src/ckl/nodes.py',
   '    def evaluate(self, environment):\n        for expression in self.expressions:\n            value = expression.evaluate(environment)\n            if isExit(value):\n                return value\n            if not value.isBoolean():\n                raise CklRuntimeError(\n                    ValueString("ERROR"),\n                    f"Expected boolean but got {value.type()}",\n                    self.pos,\n                )\n            if not value.value:\n                return FALSE\n        return TRUE\n',
   '    def evaluate(self, environment):\n        values = [e.evaluate(environment) for e in self.expressions]\n        for value in values:\n            if isExit(value):\n                return value\n            if not value.isBoolean():\n                raise CklRuntimeError(\n                    ValueString("ERROR"),\n                    f"Expected boolean but got {value.type()}",\n                    self.pos,\n                )\n        for value in values:\n            if not value.value:\n                return FALSE\n        return TRUE\n',
